@@ -400,6 +400,63 @@ def check_data_contracts(rep, ctx):
     rep.add(Query("send_data_to_wire_server: every POST body is to_xml() of the batch handed in, which is not changed there", "holds" if ok and n else "violated", why, 0, "mirsym", key="C18.size.posted-is-measured", reproduced=None))
 
 
+def check_io_units(rep, ctx):
+    """the two effects the batching obligations name only: clean_files(f) removes exactly f; send_telemetry_data(xml) posts exactly that
+    text (one request whose body is the argument's bytes) and reports failure for a transport error or a non-success status"""
+    try:
+        w = ctx.method("EventReader", "clean_files")
+        eng = ctx.engine()
+        eng.auto_inline = ctx.new_function_auto()
+        ok, n = True, 0
+        for r in eng.explore(w):
+            rm = [e for e in r.events if e.kind == "call" and re.search(r"(^|::)remove_file$", e.callee)]
+            other = [e.callee for e in r.events if e.kind == "call" and re.search(r"(^|fs::)(remove_dir|remove_dir_all|rename|copy)$|fs::write$|File::create$", e.callee)]
+            n += 1
+            if not (len(rm) == 1 and same_origin(rm[0].rargs[0], r.args[0]) and not other):
+                ok = False
+        rep.functions_encoded.append(w)
+        rep.add(Query("clean_files: removes exactly the file it is given, on every path", "holds" if ok and n else "violated", "%d paths" % n, 0, "mirsym", key="C18.io.clean_files", reproduced=None))
+    except Inconclusive as ex:
+        rep.add(Query("clean_files located", "inconclusive", str(ex), 0, "mirsym", key="C18.io.clean_files"))
+    try:
+        w = ctx.method("WireServerClient", "send_telemetry_data") + "::{closure#0}"
+    except Inconclusive as ex:
+        rep.add(Query("send_telemetry_data located", "inconclusive", str(ex), 0, "mirsym", key="C18.io.post"))
+        return
+    eng = ctx.engine(loop_bound=1, max_paths=4000)
+    eng.auto_inline = ctx.new_function_auto()
+    n_ok = 0
+    for i, r in enumerate(eng.explore(w)):
+        if r.status != "return" or not isinstance(r.ret, Agg):
+            continue
+        env = origin(r.args[0])
+        xml = env.child(("f", 1))
+        br = [e for e in r.events if e.kind == "call" and e.callee.endswith("build_request")]
+        sr = [e for e in r.events if e.kind == "await" and re.search(r"hyper_client::send_request$|(^|::)send_request$", e.callee)]
+        emp = [e for e in r.events if e.kind == "call" and re.search(r"(String|str)::is_empty$", e.callee) and same_origin(e.rargs[0], xml)]
+        if r.ret.variant == "Ok":
+            if not sr:
+                # nothing posted and success reported: only for the empty text
+                ok = bool(emp) and implied(r, emp[0].ret.scalar("bool"))
+                rep.add(Query("send_telemetry_data path %d: success without a request only for an empty text" % i, "holds" if ok else "violated", "", 0, "mirsym+z3", key="C18.io.post", reproduced=None))
+                continue
+            n_ok += 1
+            body = br[0].rargs[3] if br and len(br[0].rargs) > 3 else None
+            if isinstance(body, Agg) and body.variant == "Some" and body.fields:
+                body = body.fields[0]
+            ab = [e for e in r.events if e.kind == "call" and re.search(r"(String|str)::as_bytes$", e.callee) and e.ret is origin(body)]
+            if ab:
+                body = ab[0].rargs[0]            # the bytes of the text
+            ok = len(br) == 1 and len(sr) == 1 and body is not None and derives(body, xml, r.events) and derives(sr[0].rargs[2] if len(sr[0].rargs) > 2 else sr[0].rargs[-1], br[0].ret, r.events)
+            post = br and "POST" in repr(br[0].rargs[0])
+            st = [e for e in r.events if e.kind == "call" and e.callee.endswith("is_success")]
+            ok = ok and bool(post) and bool(st) and implied(r, st[-1].ret.scalar("bool")) and implied(r, sr[0].ret.discr() != 1)
+            rep.add(Query("send_telemetry_data path %d: success <= one POST whose body is the given text was sent and answered with a success status" % i, "holds" if ok else "violated",
+                          "build_request %d, send_request %d" % (len(br), len(sr)), 0, "mirsym+z3", key="C18.io.post", reproduced=None))
+    rep.functions_encoded.append(w)
+    rep.add(Query("witness: send_telemetry_data has a posting path", "witness-hit" if n_ok else "witness-missed", "%d" % n_ok, 0, "mirsym"))
+
+
 def check_clean(rep, ctx):
     w = ctx.method("EventReader", "process_events_and_clean")
     body = w + "::{closure#0}"
@@ -437,6 +494,7 @@ def check(rep, tier, seed):
     check_to_xml_event(rep, ctx)
     check_send_events(rep, ctx, tier)
     check_data_contracts(rep, ctx)
+    check_io_units(rep, ctx)
     check_clean(rep, ctx)
     import batteries
     batteries.confirm(rep, "C18")
